@@ -8,6 +8,10 @@ func init() {
 		"the sampled share of TraceIDRatioBased(r) over 4096 hash-derived trace IDs is judged with a Bernstein bound (failure probability < 1e-15 per case) instead of a plain 6 sigma band; the threshold is not re-implemented",
 		"a NaN ratio is only exercised for absence of panics",
 		"uniqueness of span IDs is evaluated within one run (one provider); IDs of supplied remote parents do not count as handed out",
+		"a sampled ended span reaches the exporter of a batch processor without ForceFlush/Shutdown EVENTUALLY: the wait for the processor's schedule (BatchTimeout 1..5 ms) is polled and bounded only by a hang watchdog of max(15 s, 3000 BatchTimeouts)",
+		"the non-blocking batch processor's documented drop on a full queue is kept out of the generated cases (an explicit MaxQueueSize is at least the program's span count unless WithBlocking)",
+		"what a ForceFlush that returned an error has achieved is not asserted (the provider stops at the first failing processor); the spans must still arrive by Shutdown",
+		"an exporter that returns errors must be reached at least once per sampled ended span, a never-failing one exactly once",
 		"samplers configured through OTEL_TRACES_SAMPLER / OTEL_TRACES_SAMPLER_ARG are judged against the programmatic sampler for the number the argument text denotes (as strconv.ParseFloat reads the blank-trimmed text) when that number is in [0,1]; unparsable, NaN, out-of-range or missing arguments are only run for absence of panics (their fallbacks are C20's subject)",
 	))
 }
